@@ -280,7 +280,7 @@ def Ctx.subscriptionReplyP2P (c : Ctx) (t : Topic) (a : Actor) (mode : String) (
   | some res =>
     let hasJoined := match res.modeChanged with
       | some (w, g) => isJoiner (w &&& g)
-      | none => true
+      | none => (match t.pud? a.uid with | some p => isJoiner (eff p) | none => true)   -- nothing changed: as before
     let (c, t) :=
       if hasJoined then
         let c := { c with w := c.w.attach a.sid tn }
